@@ -109,7 +109,7 @@ def history_path_killed(ctx, rid: str) -> None:
         ex = roles(ctx, v).executor
         g = cfg_of(ex.node)
         calls = self_calls_in(ex, "_enter_states")
-        c.floor(rid, f"_enter_states calls in {ex.short}", len(calls), 2)
+        c.expect(rid, f"_enter_states calls in {ex.short}", len(calls), 2, ex, f"{ex.short} no longer has both entry calls (the plain target path and the combined history path): one kind of target is never entered")
         n_raw = 0
         for call in calls:
             if not call.args:
@@ -147,7 +147,7 @@ def history_path_killed(ctx, rid: str) -> None:
                  "raw path to a history target is emptied before _enter_states" if ok else
                  f"the path to the target reaches _enter_states({arg.id}) unchanged when the target is a history "
                  f"pseudo-state: the pseudo-state itself would be added to the configuration", call)
-        c.floor(rid, f"raw-path entry calls in {ex.short}", n_raw, 1)
+        c.expect(rid, f"raw-path entry calls in {ex.short}", n_raw, 1, ex, f"{ex.short} no longer enters the path computed for an ordinary target")
 
 
 def _emptiness(f: FuncInfo, e: ast.AST, at: ast.AST) -> str:
@@ -217,7 +217,7 @@ def descent_filters_history(ctx, rid: str, kinds: Optional[Set[str]] = None) -> 
     for v in VIEWS:
         en = roles(ctx, v).enter
         calls = self_calls_in(en, "_enter_states")
-        c.floor(rid, f"descent calls in {en.short}", len(calls), 2)
+        c.expect(rid, f"descent calls in {en.short}", len(calls), 2, en, f"{en.short} no longer descends both into the initial child of a compound state and into the regions of a parallel state: an entered composite state is left without an active leaf")
         for call in calls:
             arg = call.args[0] if call.args else None
             if arg is None:
@@ -429,7 +429,8 @@ def snapshot_ancestor_closure(ctx, rid: str) -> None:
     f = ctx.p.method("BaseInterpreter", "from_snapshot")
     g = cfg_of(f.node)
     adds = [w for w in attr_writes(f) if w.attr == CONFIG_ATTR and w.op == "call:add"]
-    c.floor(rid, "configuration adds in from_snapshot", len(adds), 1)
+    if not c.expect(rid, "configuration adds in from_snapshot", len(adds), 1, f, "from_snapshot no longer re-activates the persisted states"):
+        return
     # locate the ancestor walk: a while loop whose body re-binds its variable to .parent and adds it
     walks = []
     for n in own_nodes(f.node):
@@ -574,7 +575,7 @@ def cancel_before_exit_actions(ctx, rid: str) -> None:
         cancels = [n for call in cancel_calls for n in cfg_node_of(xt, call)]
         xacts = [call for call in self_calls_in(xt, "_execute_actions")
                  if call.args and isinstance(call.args[0], ast.Attribute) and call.args[0].attr == "exit"]
-        c.floor(rid, f"cancel / exit-action sites in {xt.short}", min(len(xacts), len(cancels)), 1)
+        c.expect(rid, f"task cancellation in {xt.short}", len(cancels), 1, xt, f"{xt.short} no longer cancels the timers and services of the states it leaves: a delayed transition fires after its state was left")
         for call in xacts:
             ids = cfg_node_of(xt, call)
             cl = [l for cc in cancel_calls for l in enclosing_loops(xt, cc) if isinstance(l, ast.For)]
